@@ -375,29 +375,30 @@ func siteTags(sp *spec.Spec, m *spec.Method, decl *spec.Attr, site string, reque
 
 // explains says which finding classes a known trigger class can account for.
 var explains = map[string]map[string]bool{
-	"absent-collection-minlen":                      {"rejected:invalid_length": true, "misnamed:invalid_length": true, "refused:invalid_length": true},
-	"both-exclusive-bounds":                         {"leaked": true, "accepted": true},
-	"required-cookie":                               {"leaked": true},
-	"path-value-with-slash":                         {"rejected:fault": true, "misnamed:fault": true},
-	"body-attr-absent":                              {"panic": true, "rejected:*": true, "misnamed:*": true, "mismatch": true},
-	"required-object-outside-view":                  {"panic": true},
-	"tagged-response-header-absent":                 {"panic": true},
-	"recursive-result-type":                         {"view:nested": true},
-	"schema:map-key-elem-validation-not-documented": {"rejected:*": true},
-	"schema:non-string-key-map-is-free-form":        {"rejected:*": true},
-	"schema:null-body":                              {"leaked": true},
-	"schema:request-body-documented-required":       {"leaked": true},
-	"schema:map-length-not-documented":              {"rejected:invalid_length": true},
-	"schema:bytes-length-on-base64-text":            {"rejected:invalid_length": true, "leaked": true, "refused:*": true},
-	"doc:error-media-type":                          {"refused:*": true},
-	"doc:responses-sharing-status":                  {"refused:*": true},
-	"doc:set-cookie-header-schema":                  {"refused:*": true},
-	"doc:header-mapped-attribute-in-body-schema":    {"refused:*": true},
-	"doc:catch-all-path-spans-segments":             {"rejected:*": true},
-	"header-array-multi":                            {"refused:*": true, "accepted": true, "mismatch:header-array": true},
+	"absent-collection-minlen":                          {"rejected:invalid_length": true, "misnamed:invalid_length": true, "refused:invalid_length": true},
+	"both-exclusive-bounds":                             {"leaked": true, "accepted": true},
+	"required-cookie":                                   {"leaked": true},
+	"path-value-with-slash":                             {"rejected:fault": true, "misnamed:fault": true},
+	"body-attr-absent":                                  {"panic": true, "rejected:*": true, "misnamed:*": true, "mismatch": true},
+	"required-object-outside-view":                      {"panic": true},
+	"tagged-response-header-absent":                     {"panic": true},
+	"recursive-result-type":                             {"view:nested": true},
+	"schema:map-key-elem-validation-not-documented":     {"rejected:*": true},
+	"schema:non-string-key-map-is-free-form":            {"rejected:*": true},
+	"schema:null-body":                                  {"leaked": true},
+	"schema:request-body-documented-required":           {"leaked": true},
+	"schema:map-length-not-documented":                  {"rejected:invalid_length": true},
+	"schema:bytes-length-on-base64-text":                {"rejected:invalid_length": true, "leaked": true, "refused:*": true},
+	"doc:error-media-type":                              {"refused:*": true},
+	"doc:responses-sharing-status":                      {"refused:*": true},
+	"doc:set-cookie-header-schema":                      {"refused:*": true},
+	"doc:header-mapped-attribute-in-body-schema":        {"refused:*": true},
+	"doc:viewed-result-requires-attribute-outside-view": {"refused:*": true},
+	"doc:catch-all-path-spans-segments":                 {"rejected:*": true},
+	"header-array-multi":                                {"refused:*": true, "accepted": true, "mismatch:header-array": true},
 }
 
-var tagOrder = []string{"doc:catch-all-path-spans-segments", "doc:error-media-type", "doc:set-cookie-header-schema", "doc:header-mapped-attribute-in-body-schema", "doc:responses-sharing-status", "schema:map-key-elem-validation-not-documented", "schema:non-string-key-map-is-free-form", "schema:null-body", "schema:request-body-documented-required", "schema:map-length-not-documented", "schema:bytes-length-on-base64-text", "recursive-result-type", "tagged-response-header-absent", "required-object-outside-view", "both-exclusive-bounds", "required-cookie", "body-attr-absent", "path-value-with-slash", "header-array-multi", "absent-collection-minlen"}
+var tagOrder = []string{"doc:catch-all-path-spans-segments", "doc:error-media-type", "doc:set-cookie-header-schema", "doc:header-mapped-attribute-in-body-schema", "doc:viewed-result-requires-attribute-outside-view", "doc:responses-sharing-status", "schema:map-key-elem-validation-not-documented", "schema:non-string-key-map-is-free-form", "schema:null-body", "schema:request-body-documented-required", "schema:map-length-not-documented", "schema:bytes-length-on-base64-text", "recursive-result-type", "tagged-response-header-absent", "required-object-outside-view", "both-exclusive-bounds", "required-cookie", "body-attr-absent", "path-value-with-slash", "header-array-multi", "absent-collection-minlen"}
 
 // mkKey builds a violation key. class is the coarse finding class ("rejected:<name>", "leaked",
 // "misnamed:<name>", "refused:<name>", "accepted", "panic", "mismatch:..."). When the input belongs
